@@ -117,7 +117,7 @@ def run(ctx, rep):
     sets = L.flag_stores('parity_going_to_be_updated', 1)
     rep.check(len(sets) == 1 and gens and all(f.must_pass(s, gens, start=L.block_first(L.header)) for s in sets), 'R-C06-3', 'parity_going_to_be_updated=1 dominated by raid_gen within the iteration', sets[0].loc() if sets else f.file, '%d raid_gen sites' % len(gens), function='state_sync_process', construct='going after raid_gen')
     for g in gens:
-        args = [f.expr(o) for o in g.ops]
+        args = [f.xexpr(o) for o in g.ops]
         rep.check(args == ['diskmax', 'state->level', 'state->block_size', 'buffer'], 'R-C06-3', 'raid_gen over all disks, all levels, full block', g.loc(), str(args), function='state_sync_process', construct='raid_gen arguments')
     for slot in ('io_write_preset', 'io_write_next'):
         cs = L.slot_calls(slot)
